@@ -375,7 +375,13 @@ int oracle_container(int, char**) {
 				int serial = 0;
 				for (auto& op : split(c.get("ops"), ';'))
 					ed_apply(nif, op, serial++);
-				out << " | " << save_and_observe(nif, c.get("out"), c.get("opts"));
+				if (c.geti("copy") == 1) {
+					// the model is saved through a copy of the NifFile object (copy constructor)
+					NifFile cp(nif);
+					out << " | " << save_and_observe(cp, c.get("out"), c.get("opts"));
+				}
+				else
+					out << " | " << save_and_observe(nif, c.get("out"), c.get("opts"));
 				if (c.kv.count("twice")) {
 					// a second save of the same object into <out>.2
 					out << " | " << save_and_observe(nif, c.get("out") + ".2", c.get("opts"));
